@@ -507,3 +507,91 @@ Section Rollback.
       rewrite St. unfold ideal. simpl. rewrite KT1. symmetry. exact S1.
   Qed.
 End Rollback.
+
+(* ------------------------------------------------------------ boolean form, witnesses *)
+Fixpoint blocks_okb (P : params) (bs : list block) (st : mstate) : bool :=
+  match bs with
+  | [] => true
+  | b :: r =>
+      (h_height (fst st) <? hN b)%N && (hN b <? 4294967296)%N && block_disciplined P (snd st) b &&
+      match process_block P (Some st) b with
+      | Some st' => blocks_okb P r st'
+      | None => false
+      end
+  end.
+
+Lemma blocks_okb_ok P : forall bs st, blocks_okb P bs st = true -> blocks_ok P bs st.
+Proof.
+  induction bs as [|b r IH]; intros st H; simpl in *; auto.
+  apply andb_true_iff in H. destruct H as [H H4]. apply andb_true_iff in H. destruct H as [H H3].
+  apply andb_true_iff in H. destruct H as [H1 H2].
+  apply N.ltb_lt in H1. apply N.ltb_lt in H2. repeat split; auto.
+  destruct (run (block_ops P (snd st) b) st) as [st'|]; [apply IH; exact H4|discriminate].
+Qed.
+
+Fixpoint vec_eqb (a b : list Z) : bool :=
+  match a, b with
+  | [], [] => true
+  | x :: a', y :: b' => (x =? y) && vec_eqb a' b'
+  | _, _ => false
+  end.
+
+(* rollback of the last [n2] blocks equals the direct build, as a boolean *)
+Definition rollback_agrees (P : params) (bs1 bs2 : list block) : bool :=
+  match process_all P bs1 (init P) with
+  | Some st1 =>
+      match rollback (Z.of_N (h_height (fst st1))) (process_all P bs2 st1) with
+      | Some st' => vec_eqb (snd st') (snd st1)
+      | None => false
+      end
+  | None => false
+  end.
+
+Definition empty_blocks (from : Z) (n : nat) : list block :=
+  map (fun i => Block (from + Z.of_nat i) (1000 + from + Z.of_nat i) []) (seq 0 n).
+
+(* the known defect: a CancelProducer in the very block that activates the
+   pending producer leaves it both canceled and active; a second cancel is
+   then accepted and its rollback (cancelHeight = 0, removal from the canceled
+   set) does not restore the state.  Slot 0 registers at height 10, is
+   canceled at 15 (= activation block) and again at 17. *)
+Definition wP : params := Params 2 3 3 3 1000000 100 720.
+Definition w_blocks1 : list block :=
+  [Block 10 1010 [TRegister 0 0 500000000000 0]] ++ empty_blocks 11 4 ++
+  [Block 15 1015 [TCancel 0]; Block 16 1016 []].
+Definition w_blocks2 : list block := [Block 17 1017 [TCancel 0]].
+
+Lemma cancel_in_activation_block_refuted :
+  rollback_agrees wP w_blocks1 w_blocks2 = false /\
+  blocks_okb wP w_blocks1 (init wP) = true /\
+  blocks_okb wP (w_blocks1 ++ w_blocks2) (init wP) = false.
+Proof. repeat split; vm_compute; reflexivity. Qed.
+
+(* non-vacuity: a sequence with register / update / votes / vote cancel /
+   top-up / cancel / deposit release / deposit return / activation and the
+   irreversibility bookkeeping satisfies the hypotheses, and rolling back its
+   last 6 blocks agrees (computed). *)
+Definition dP : params := Params 3 6 8 3 12 100 720.
+Definition d_blocks1 : list block :=
+  [Block 10 1010 [TRegister 0 0 500000000000 0; TRegister 1 1 500100000000 1];
+   Block 11 1011 [TUpdate 0 2];
+   Block 12 1012 []; Block 13 1013 []; Block 14 1014 [];
+   Block 15 1015 [TVote 2 [(0%nat, 5); (1%nat, 3)]];
+   Block 16 1016 [TTopup 1 700000000 3; TVote 4 [(1%nat, 2)]]].
+Definition d_blocks2 : list block :=
+  [Block 17 1017 [TCancel 0; TUnvote 2 [(0%nat, 5); (1%nat, 3)]];
+   Block 18 1018 [TUpdate 1 4];
+   Block 19 1019 [];
+   Block 20 1020 [TTopup 1 100000000 5];
+   Block 21 1021 [TReturn 0 [0%nat] 0];
+   Block 22 1022 [TCancel 1]].
+
+Lemma demo_blocks_ok :
+  blocks_okb dP (d_blocks1 ++ d_blocks2) (init dP) = true /\
+  rollback_agrees dP d_blocks1 d_blocks2 = true /\
+  match process_all dP (d_blocks1 ++ d_blocks2) (init dP) with
+  | Some st => get (snd st) (iP 0 fSt) = stReturned /\ get (snd st) (iP 1 fSt) = stCanceled /\
+               get (snd st) (iLih dP) = 16 /\ length (h_changes (fst st)) = 13%nat
+  | None => False
+  end.
+Proof. split; [vm_compute; reflexivity|]. split; [vm_compute; reflexivity|]. vm_compute. repeat split. Qed.
